@@ -81,6 +81,10 @@ CHECKS = {
          "TLC checks on all 3456 scenarios (is-one-of x specify-by-url, bearer token, 13 header strings and pairs incl. repeated names in different case, output to file / stdout, existing file, 8 server behaviours: 200 + JSON, 200 + garbage, 404 / 500 with JSON, 400 / 503 with text, connection refused, connection closed mid-reply) that success delivers the server's JSON, failure leaves an existing file untouched, refused arguments send nothing; with OpenOutputEarly = TRUE it produces the truncation counterexample. 110 (2500) real runs: the request the mock saw (POST, exact document for the flags, matching operationName, every header name / value, bearer), exit status, stdout and file content are compared with the specification, the run log is validated by TLC, and the written file generates the same code as the served schema's SDL.",
          "Trusted: TLC, the mock server in tools/c20.py, reqwest's framing of the request. Loopback HTTP only.",
          "DESIGN.md §5 C20", "model_checking"),
+ "C02": ("TLA+ option lattice x delivery form x consumer configuration (MC_C02 over Options.tla) and the supported-program generator (ProgGen) enumerated by TLC; every chosen case produced by the three real routes (library call, real #[derive(GraphQLQuery)], file written by the built CLI) and type-checked by rustc in consumer crates with and without a direct serde dependency",
+         "TLC enumerates the 6528 admissible (option set, delivery form, consumer) configurations and the supported programs; a covering sample of programs, each made a two-operation document with shared fragments and variables of enum / custom scalar / nested input / @oneOf / [ID!]! types, is generated in all five (form, consumer) classes with option sets rotating over a pairwise cover (derives, normalization, deprecation strategy, other-variant, skip-none, custom scalars module, extern enums, visibility, serde path; SDL and JSON schemas). Generation must succeed and `cargo check` must report no error attributed to the case's file.",
+         "Trusted: TLC, projection, rustc's diagnostics attribution by file. Known exclusions (recorded in known_findings.json / DESIGN.md): operation names that collide as module or struct names, selection paths that camel-case to the same type name.",
+         "DESIGN.md §5 C02", "model_checking"),
 }
 
 
